@@ -6,6 +6,7 @@ import (
 	"flag"
 	"fmt"
 	"os"
+	"runtime/debug"
 	"strconv"
 
 	"syscall"
@@ -93,6 +94,15 @@ func main() {
 		os.Exit(c.ReplayReport(r.CaseID))
 	}
 	c := core.NewCtx(prop, *tier, *seed)
-	f(c)
+	func() {
+		// safety net: a panic that escapes a generator (library code reached outside a recover) must not
+		// look like a passing or merely broken check
+		defer func() {
+			if p := recover(); p != nil {
+				c.Crash(fmt.Sprintf("%v\n%s", p, debug.Stack()))
+			}
+		}()
+		f(c)
+	}()
 	os.Exit(c.Finish())
 }
